@@ -1,7 +1,7 @@
 (** C04 - Key commands put exactly the intended press/release events on the wire. *)
 From Coq Require Import ZArith List Bool Lia String.
 From VD Require Import Base.Bytes Base.Text Gen.Tables Model.ClientMsgs Model.Keys Model.ClientOps Spec.C2S Spec.X11.
-From VD Require Import Proofs.C2SP Proofs.KeysP Proofs.ClientOpsP Gen.Exprs Proofs.ExprTie Gen.DecodeKey Proofs.DecodeKeyTie.
+From VD Require Import Proofs.C2SP Proofs.KeysP Proofs.ClientOpsP Gen.ExprsKeys Proofs.TieKeys Gen.DecodeKey Proofs.DecodeKeyTie.
 Import ListNotations.
 Open Scope Z_scope.
 
@@ -67,7 +67,7 @@ Example C04_nonvacuous :
           [KEY_ControlLeft; KEY_AltLeft; KEY_Delete].
 Proof. repeat constructor; apply T_name; vm_compute; reflexivity. Qed.
 
-(** The order of presses and releases of the model is the source's own ([Gen/Exprs.v]): keyPress walks the decoded keys
+(** The order of presses and releases of the model is the source's own ([Gen/Exprs*.v]): keyPress walks the decoded keys
     forwards with down=True and then backwards with down=False, keyDown / keyUp walk them once - as read from the loops
     of client.py on every run. *)
 Theorem C04_key_passes_are_source : forall fc up key,
